@@ -502,3 +502,10 @@ func tableGrowFails(t *TableInstance, cur, delta uint32) bool {
 //@   loop 0 (i int, newRegion []Reference)
 //@     invariant 1 <= i && len(newRegion) == int(delta) && len(newRegion) >= 1 && verif_slice_at(newRegion, t.References, int(currentLen)) && len(t.References) == int(currentLen)+int(delta) && int(currentLen) == old[int](len(t.References))
 //@     invariant forall j int :: 0 <= j && j < int(currentLen) ==> t.References[j] == old[Reference](t.References[j])
+
+// ---- C14: a decoded memory is accepted exactly when minimum <= maximum <= limit and the capacity lies
+// between the minimum and the limit.
+//@ prop C14 C03
+//@ func (m *Memory) Validate(memoryLimitPages uint32) error
+//@   ensures[accepted-iff-within-limits] (r0 == nil) == (m.Max <= memoryLimitPages && m.Min <= memoryLimitPages && m.Min <= m.Max && m.Cap >= m.Min && m.Cap <= memoryLimitPages)
+//@   modifies nothing
